@@ -91,6 +91,11 @@ fn gen(ctx: &GenCtx, i: u64, local: bool) -> Option<Run> {
     if layer != Layer::Core {
         for _ in 0..r.usize(4) {
             let c = gen_claim(&mut r, layer == Layer::Generic, now);
+            // sometimes a value shaped like the claim's own {key: value} envelope
+            let c = match (&c, r.below(8)) {
+                (ClaimSpec::Custom { key, value }, 0) => ClaimSpec::Custom { key: key.clone(), value: serde_json::json!({ key.clone(): value.clone() }) },
+                _ => c,
+            };
             if !extra.iter().any(|e: &ClaimSpec| e.key() == c.key()) && c.key() != "data" {
                 extra.push(c);
             }
